@@ -1,16 +1,16 @@
 """History-template generators for the store-level driver."""
 from bodies import (INVALID_ICAL, INVALID_VCARD, UIDS, gen_ical, gen_vcard, vevent, vcard)
 
-NAMES_ICS = ["a.ics", "b.ics", "c d.ics", "ü.ics", "E.ICS"]
+NAMES_ICS = ["a.ics", "b.ics", "c d.ics", "ü.ics", "E.ICS", "my.git.ics", "x.tmp.ics"]
 NAMES_VCF = ["k.vcf", "l m.vcf"]
 NAMES_OTHER = ["notes.txt", "x"]
 
 
 def gen_template(rng, toks, length, profile="mixed", kind_hint=None):
     """Weighted random walk.  profile: mixed | uid | sync | reupload | cond"""
-    names = list(NAMES_ICS[: rng.randint(2, 4)])
+    names = rng.sample(NAMES_ICS, rng.randint(2, 4))
     if profile == "uid":
-        names = list(NAMES_ICS[: rng.randint(3, 4)])
+        names = rng.sample(NAMES_ICS, rng.randint(3, 4))
     if profile in ("mixed", "sync", "cond"):
         names += [rng.choice(NAMES_VCF)]
     if profile == "mixed" and rng.random() < 0.5:
